@@ -3,7 +3,8 @@
 Spec: spec/Temperature.tla (+ MC_C08, Trace_C08).
   1. TLC enumerates the bounded single-step instance MC_C08 (conversions, the
      binary pair table in four call forms, diff/ediff1d/ptp/gradient, the
-     multiplicative/power family, chains of 2-3 conversion routes / point +
+     multiplicative/power family, repeated products/quotients over 1-4 elements
+     and grids with every axis argument, chains of 2-3 conversion routes / point +
      difference arithmetic applied to the SAME source object), computes for every case the
      implementation-shaped outcome, the property verdict on that outcome
      (model-level counterexamples) and the candidate values, and exports them.
@@ -41,7 +42,7 @@ def _key(r):
     if r["fam"] == "red":
         k.update(left_kelvin_sized=bool(r["left_kelvin_sized"]))
     if r["fam"] == "ref":
-        k.update(partner=r["part"])
+        k.update(partner=r["part"], shape=r["shape"])
     if r["fam"] == "chain":
         k.update(op=r["route"], step=r["step"], routes=">".join(r["routes"][: r["step"]]), dtype=r["dt"], shape=r["shape"])
     return k
@@ -86,7 +87,7 @@ def _validate(ck, cases, obs, label):
     return npf
 
 
-FAMILY_GROUPS = [["chain"], ["conv"], ["bin", "red", "ref"], ["mix"]]
+FAMILY_GROUPS = [["chain"], ["conv", "pred"], ["bin", "red", "ref"], ["mix"]]
 
 
 def _case_tables(ck, cfg):
@@ -154,11 +155,12 @@ def run(ck):
     for c in cases:
         fams[c["fam"]] = fams.get(c["fam"], 0) + 1
     fams["bin(refusal pair table)"] = sum(1 for c in cases if c.get("group") == "mix")
+    fams["ref(repeated products)"] = sum(1 for c in cases if c["fam"] == "ref" and c["shape"] not in ("arr", "sc"))
     ck.cov["cases_by_family"] = fams
     ck.cov["cases_by_dtype"] = {}
     for c in cases:
         ck.cov["cases_by_dtype"][c["dt"]] = ck.cov["cases_by_dtype"].get(c["dt"], 0) + 1
-    for fam in ("bin", "conv", "red", "ref", "chain", "bin(refusal pair table)"):
+    for fam in ("bin", "conv", "red", "ref", "chain", "bin(refusal pair table)", "ref(repeated products)"):
         if not fams.get(fam):
             raise MachineryFailure(f"no case of family {fam} generated (vacuous instance)")
     model_cex = {}
